@@ -55,6 +55,10 @@ PROPS = {
     "C14": P("generated from one template per type (tools/gen_c14.py): Map1-12 (NewEntityFn, Get, HasAll, Set, Remove, AddFn, NewBatchFn; relation index at arities 1,2,5,12), Filter/Query0-8 (Next, Entity, Get, Count, EntityAt vs UnsafeQuery; relations at 1,2,4,8), Exchange1-8 (Exchange, AddFn, Remove, ExchangeBatchFn), Observer1-4: component types of pairwise different sizes (4..48 bytes), >= 2 rows per table, symbolic values; k-th typed pointer == Unsafe.Get(e, ids[k]), values agree in both directions, effects (Has/IDs/table) equal to the ID-based call",
              "same", "the code generator internal/generate itself (only the generated files in the tree are executed); Map batch variants beyond NewBatchFn (C06); arities are exhaustive for the listed methods",
              level="translation_validation"),
+    "C20": P("the same harnesses under the four tag sets {}, {ark_tiny}, {ark_debug}, {ark_tiny,ark_debug}: mask algebra and filter.matches for all masks, FireAdd/FireRemove with symbolic observers, lock step, toTypes at counts {1,5,63,64}, model-based steps (Add, Exchange, RemoveEntity incl. rejected calls) and symbolic-filter query walks on shapes with component IDs 3..8, and misuse calls (query access before Next / after exhaustion / after Close, Set/Get/GetRelation of a missing component) with the default build's panic/no-panic outcome as the common expectation",
+             "same", "histories with more than 64 component types (excluded by the property); panic messages",
+             ["a harness whose checks pin results and panic/no-panic completely and passes under all four builds shows the builds equivalent on what it explores (equivalence via a common specification, not a product program)"],
+             level="translation_validation", tagsets=["verif", "verif,ark_tiny", "verif,ark_debug", "verif,ark_tiny,ark_debug"]),
     "C10": P("every rejected call of the C01/C04 step harnesses (dead entity: never reused and recycled id; duplicate / already present / missing component; dead or recycled relation target; exchange of same component) must panic and leave model, INV and lock state unchanged",
              "same", "batch operations (lock state covered by C07); *Unchecked accessors; typed arities > 2"),
     "C05": P("registered Filter1/Filter2 with FULLY symbolic with/without masks and symbolic relation target (filter or per query) over both shapes: the cached walk/Count equals the model set (= uncached semantics); register/unregister bookkeeping",
